@@ -7,7 +7,7 @@ import (
 )
 
 // Op is one API call of a TLC-generated script (spec/bus/BusGen.tla): pub, sub n (n = 0: Subscribe on the bus,
-// else Clone of subscriber n), read n, aclose n (Close() in its own goroutine), join n (wait for that Close()),
+// else Clone of subscriber n), hpub (publish and hold the bus's loop before the fan-out), release, read n, aclose n (Close() in its own goroutine), join n (wait for that Close()),
 // close n (Close() and wait).  Subscribers are numbered in creation order, as in the model.
 type Op struct {
 	Op string `json:"op"`
@@ -84,7 +84,19 @@ func runScript(sc Script, run int, timeout time.Duration) ([]Line, bool, error) 
 		if s.isBlocked() {
 			break
 		}
+		// the bus's loop is needed by these: let a held fan-out go on first
+		if op.Op == "pub" || op.Op == "hpub" || op.Op == "join" || op.Op == "close" || op.Op == "release" ||
+			(op.Op == "sub" && op.N == 0) {
+			gate.release()
+		}
 		switch op.Op {
+		case "release":
+		case "hpub":
+			// publish and hold the bus's loop between receiving the event and handing it to any subscriber
+			gate.arm()
+			if s.publish(s.newEvent()) != "ok" || !gate.waitHeld(s.timeout) {
+				gate.release()
+			}
 		case "pub":
 			s.publish(s.newEvent())
 		case "sub":
@@ -117,6 +129,7 @@ func runScript(sc Script, run int, timeout time.Duration) ([]Line, bool, error) 
 			return nil, false, fmt.Errorf("unknown op %q", op.Op)
 		}
 	}
+	gate.release()
 	s.finish(pending)
 	blocked := s.isDirty()
 	if !blocked {
